@@ -225,9 +225,31 @@ func (c *voleCase) summary() string {
 	return sb.String()
 }
 
-// runVole runs one history of Mul calls on one pair; returns the op line and
-// the result line.
-func runVole(o *hxlib.Out, c *voleCase) (string, string) {
+// opRes is one op line with the real code's result line.
+type opRes struct{ op, res string }
+
+// wcapRun is the measured size of the p2p.Conn write buffer of the tree under
+// test; it is the <cap> argument of every volesw op line (the model computes
+// the wire bytes through a block-wise writer of that size).
+var wcapRun int
+
+// maxLine is the longest result line emitted in one piece (hxlib caps lines
+// at 8 MiB); longer histories are emitted as two op lines with the views
+// "ru" (both share vectors) and "msg" (both framed messages).
+const maxLine = 6 << 20
+
+// runVole runs one history of Mul calls on one pair; returns the op line(s)
+// and the result line(s).
+func runVole(o *hxlib.Out, c *voleCase) []opRes {
+	op, res := runVoleViews(o, c)
+	out := make([]opRes, len(op))
+	for i := range op {
+		out[i] = opRes{op[i], res[i]}
+	}
+	return out
+}
+
+func runVoleViews(o *hxlib.Out, c *voleCase) ([]string, []string) {
 	detail := func(extra map[string]any) map[string]any {
 		d := map[string]any{"case": c.idx, "calls": c.summary(), "base": c.base,
 			"rerun": fmt.Sprintf("go run -tags verif ./cmd/c20 vole -seed %d -n %d -tier %s -only %d (in /verif/harness)", runSeed, runN, runTier, c.idx)}
@@ -329,7 +351,11 @@ func runVole(o *hxlib.Out, c *voleCase) (string, string) {
 	for _, cl := range c.calls {
 		fmt.Fprintf(&callsSB, " %s %s %s", cl.mod.p.Text(16), natsHex(cl.xs), natsHex(cl.ys))
 	}
-	opWith := func(stream string) string { return "c20 voles " + stream + callsSB.String() }
+	opView := func(view, stream string) string {
+		return fmt.Sprintf("c20 volesw %d%s %s%s", wcapRun, view, stream, callsSB.String())
+	}
+	opWith := func(stream string) string { return opView("", stream) }
+	one := func(op, res string) ([]string, []string) { return []string{op}, []string{res} }
 	if stalled {
 		stalls++
 	}
@@ -337,7 +363,7 @@ func runVole(o *hxlib.Out, c *voleCase) (string, string) {
 		o.Fail("c20-vole-error", detail(map[string]any{"stalled": stalled, "sender_panic": fmt.Sprint(panS),
 			"receiver_panic": fmt.Sprint(panR), "sender_err": fmt.Sprint(errS), "receiver_err": fmt.Sprint(errR),
 			"sender_calls_done": len(rsAll), "receiver_calls_done": len(usAll)}))
-		return opWith("-"), "session-failed"
+		return one(opWith("-"), "session-failed")
 	}
 
 	// ---- oracle: the share relation on the real outputs, after every call
@@ -417,16 +443,17 @@ func runVole(o *hxlib.Out, c *voleCase) (string, string) {
 				shape = false
 				break
 			}
-			ymsgs[j] = ba[off+4 : off+4+32*cl.m]
+			// the framed messages as they were on the wire (length prefix included)
+			ymsgs[j] = ba[off : off+4+32*cl.m]
 			off += 4 + 32*cl.m
-			umsgs[j] = ab[offU+4 : offU+4+32*cl.m]
+			umsgs[j] = ab[offU : offU+4+32*cl.m]
 			offU += 4 + 32*cl.m
 		}
 	}
 	if !shape || len(recS.Got) != 1 || len(recS.Got[0]) != ot.K {
 		o.Fail("c20-vole-transcript-shape", detail(map[string]any{"len_ba": len(ba), "len_ab": len(ab), "tail_ba": tailBA,
 			"tail_ab": tailAB, "base_receives": len(recS.Got)}))
-		return opWith("-"), "transcript-shape"
+		return one(opWith("-"), "transcript-shape")
 	}
 
 	// ---- the extension's row stream as the sender sees it: a shadow
@@ -459,7 +486,7 @@ func runVole(o *hxlib.Out, c *voleCase) (string, string) {
 	}()
 	if shadowErr != nil {
 		o.Fail("c20-vole-shadow", detail(map[string]any{"err": fmt.Sprint(shadowErr), "labels": len(stream)}))
-		return opWith("-"), "shadow-failed"
+		return one(opWith("-"), "shadow-failed")
 	}
 	var lsb strings.Builder
 	for _, l := range stream {
@@ -468,12 +495,22 @@ func runVole(o *hxlib.Out, c *voleCase) (string, string) {
 	if len(stream) == 0 {
 		lsb.WriteString("-")
 	}
-	var res strings.Builder
+	var res, resRU, resMsg strings.Builder
 	fmt.Fprintf(&res, "pos=%d", len(stream))
+	fmt.Fprintf(&resRU, "pos=%d", len(stream))
+	fmt.Fprintf(&resMsg, "pos=%d", len(stream))
 	for j := range c.calls {
-		fmt.Fprintf(&res, "|r=%s;u=%s;ymsg=%s;umsg=%s", natsHex(rsAll[j]), natsHex(usAll[j]), hxlib.Hex(ymsgs[j]), hxlib.Hex(umsgs[j]))
+		ru := fmt.Sprintf("r=%s;u=%s", natsHex(rsAll[j]), natsHex(usAll[j]))
+		msg := fmt.Sprintf("yfr=%s;ufr=%s", hxlib.Hex(ymsgs[j]), hxlib.Hex(umsgs[j]))
+		fmt.Fprintf(&res, "|%s;%s", ru, msg)
+		fmt.Fprintf(&resRU, "|%s", ru)
+		fmt.Fprintf(&resMsg, "|%s", msg)
 	}
-	return opWith(lsb.String()), res.String()
+	if res.Len() > maxLine {
+		o.Count("vole_sessions_emitted_as_two_views")
+		return []string{opView("/ru", lsb.String()), opView("/msg", lsb.String())}, []string{resRU.String(), resMsg.String()}
+	}
+	return one(opWith(lsb.String()), res.String())
 }
 
 func pickLen(r *hxlib.Rng) int {
@@ -545,6 +582,11 @@ func nextCall(r *hxlib.Rng, prev []voleCall, tier string, o *hxlib.Out) voleCall
 		cl.m = 1 + r.Intn(600)
 		cl.how = "not-longer"
 	}
+	if wcapRun > 0 && r.Intn(40) == 0 {
+		// a long vector at a random place of the history: a length around one or
+		// two blocks of the connection's write buffer
+		cl.m, cl.how = boundaryFollowUp(r, wcapRun), "transport-boundary"
+	}
 	switch r.Intn(6) {
 	case 0:
 		cl.mod = last.mod
@@ -591,13 +633,23 @@ func voleMain(cf *hxlib.CommonFlags, o *hxlib.Out) {
 			grid = append(grid, combo{m, md})
 		}
 	}
+	// transport boundaries, measured on the tree under test
+	wcap, rcap := transportCaps()
+	wcapRun = wcap
+	o.Meta["write_buffer_bytes"] = wcap
+	o.Meta["read_buffer_bytes"] = rcap
+	plan := longPlan(cf.Seed, cf.Tier, wcap, rcap)
+	o.Meta["long_plan_cases"] = len(plan)
 	for idx := 0; idx < cf.N; idx++ {
 		r := master.Fork()
 		c := &voleCase{idx: idx}
 		var first voleCall
 		first.how = "first"
+		var long *longSpec
 		if idx < len(grid) {
 			first.m, first.mod = grid[idx].m, grid[idx].mod
+		} else if idx-len(grid) < len(plan) {
+			long = &plan[idx-len(grid)]
 		} else {
 			if cf.Tier == "quick" {
 				first.m = 1 + r.Intn(90)
@@ -638,22 +690,28 @@ func voleMain(cf *hxlib.CommonFlags, o *hxlib.Out) {
 		if r.Intn(2) == 0 {
 			c.frag = r.Fork()
 		}
-		first.xs = make([]*big.Int, first.m)
-		first.ys = make([]*big.Int, first.m)
-		for i := 0; i < first.m; i++ {
-			first.xs[i] = element(r, first.mod.p, o, "x")
-			first.ys[i] = element(r, first.mod.p, o, "y")
-		}
-		c.calls = []voleCall{first}
-		// history: 1..6 calls on the same pair (a single call on one case in five)
-		ncalls := 1
-		if idx < len(grid) {
-			ncalls = 2 + r.Intn(3)
-		} else if r.Intn(5) != 0 {
-			ncalls = 2 + r.Intn(5)
-		}
-		for len(c.calls) < ncalls {
-			c.calls = append(c.calls, nextCall(r, c.calls, cf.Tier, o))
+		if long != nil {
+			// long-vector plan: the history is built around one boundary length
+			c.calls = longCalls(r, *long, wcap, o)
+			first = c.calls[0]
+		} else {
+			first.xs = make([]*big.Int, first.m)
+			first.ys = make([]*big.Int, first.m)
+			for i := 0; i < first.m; i++ {
+				first.xs[i] = element(r, first.mod.p, o, "x")
+				first.ys[i] = element(r, first.mod.p, o, "y")
+			}
+			c.calls = []voleCall{first}
+			// history: 1..6 calls on the same pair (a single call on one case in five)
+			ncalls := 1
+			if idx < len(grid) {
+				ncalls = 2 + r.Intn(3)
+			} else if r.Intn(5) != 0 {
+				ncalls = 2 + r.Intn(5)
+			}
+			for len(c.calls) < ncalls {
+				c.calls = append(c.calls, nextCall(r, c.calls, cf.Tier, o))
+			}
 		}
 		if cf.Only >= 0 && cf.Only != idx {
 			continue
@@ -662,13 +720,21 @@ func voleMain(cf *hxlib.CommonFlags, o *hxlib.Out) {
 			o.Count("aborted_after_stalls")
 			break
 		}
-		op, res := runVole(o, c)
-		o.Op(op, res)
+		resBytes := 0
+		for _, e := range runVole(o, c) {
+			o.Op(e.op, e.res)
+			resBytes += len(e.res)
+		}
 		o.Count("vole_sessions")
 		o.Count(fmt.Sprintf("vole_session_calls_%d", len(c.calls)))
 		o.Count("vole_base_" + c.base)
 		if idx < len(grid) {
 			o.Count(fmt.Sprintf("vole_grid_%d_%s", first.m, first.mod.name))
+		}
+		if long != nil {
+			o.Count("vole_long_cases")
+			o.Count("vole_long_class_" + long.class)
+			o.Count("vole_long_pattern_" + longPatternNames[long.pattern])
 		}
 		slotY := map[int]int{} // widest y packed so far per vector slot
 		slotU := 0             // longest vector so far
@@ -698,6 +764,22 @@ func voleMain(cf *hxlib.CommonFlags, o *hxlib.Out) {
 			}
 			if cl.m%8 != 0 {
 				o.Count("vole_len_not_mult_8")
+			}
+			size := "small_modulus"
+			if cl.mod.p.BitLen() > 248 {
+				size = "large_modulus"
+			} else if cl.mod.p.BitLen() > 64 {
+				size = "medium_modulus"
+			}
+			for _, t := range lenTags(cl.m, wcap, rcap) {
+				o.Count("vole_len_" + t)
+				o.Count("vole_len_" + t + "_" + size)
+				if j > 0 && c.calls[j-1].m > 0 && frameHeader+elemBytes*c.calls[j-1].m <= wcap {
+					o.Count("vole_len_" + t + "_after_one_block_call")
+				}
+				if j+1 < len(c.calls) && c.calls[j+1].m > 0 && frameHeader+elemBytes*c.calls[j+1].m <= wcap {
+					o.Count("vole_len_" + t + "_before_one_block_call")
+				}
 			}
 			if j > 0 {
 				o.Count("vole_next_" + cl.how)
@@ -729,7 +811,7 @@ func voleMain(cf *hxlib.CommonFlags, o *hxlib.Out) {
 			}
 		}
 		if idx < 3 {
-			o.Sample(map[string]any{"mode": "vole", "calls": c.summary(), "base": c.base, "result_bytes": len(res)})
+			o.Sample(map[string]any{"mode": "vole", "calls": c.summary(), "base": c.base, "result_bytes": resBytes})
 		}
 	}
 }
